@@ -165,7 +165,7 @@ func c45Build(e *e3Engine, sp c45Spec, idx int, from *e3Wallet, others []*e3Wall
 	case c45Builtin:
 		bi := c45BuiltinNames[sp.Var%len(c45BuiltinNames)]
 		tp, to, value = transaction.TxnTypeSmartContract, bi.addr, 0
-		data = e3SCData(bi.fn, map[string]interface{}{"round": rnd})
+		data = e3SCData(bi.fn, map[string]interface{}{"round": rnd, "sent_by": "client"}) // never byte-identical to the generator's own built-in
 	case c45Unknown:
 		tp, to, value = transaction.TxnTypeSmartContract, faucetsc.ADDRESS, 0
 		data = e3SCData(fmt.Sprintf("no_such_function_%d", sp.Var), nil)
@@ -458,6 +458,7 @@ func TestC45_GenerateVerify(t *testing.T) {
 					}
 					if p.spec.Kind == c45Builtin {
 						includedBuiltinFromPool = true
+						st.Class("included_built_in_name_from_pool/" + x.FunctionName)
 					}
 					if p.spec.Kind == c45BadSig {
 						includedBadSig = true
